@@ -574,7 +574,8 @@ class Harness:
                 rn = self.nrunner
 
                 def acc2(rn=rn):
-                    r2 = self.SR(accept_delay=0.02)
+                    r2 = getattr(self, "pending2", None) or self.SR(accept_delay=0.02)
+                    self.pending2 = None
                     self.runtime2 = r2
                     hooks.emit("accept.call", r=rn)
                     try:
@@ -585,6 +586,15 @@ class Harness:
                         hooks.emit("accept.ret", r=rn, outcome="returned", exc="", cause_p="", cause_kind="")
                 t = self.helper(acc2, "accept2")
                 t.join(op.get("timeout", 1.0))
+            elif o == "adopt2":
+                # a payload given to ANOTHER ServiceRunner instance (the one the next second_accept
+                # will try to run) before that one has ever accepted: it is that runner's business
+                if getattr(self, "pending2", None) is None:
+                    self.pending2 = self.SR(accept_delay=0.02)
+                spec = self.spec_of(op["p"])
+                fn, args, kwargs = self.make_payload(op["p"], spec)
+                hooks.emit("adopt2.call", p=op["p"])
+                self.pending2.adopt(fn, *args, flavour=FLAVOURS[spec["flavour"]], **kwargs)
             elif o == "reaccept_start":
                 # the same ServiceRunner accepts again (second run); the script goes on
                 self.reaccept_go.set()
